@@ -1296,6 +1296,10 @@ class BaseAuxVarOptimizer(BaseNonConvexOptimizer):
         joint = self.construct_full_joint(x)
         outcomes, pmf = zip(*[(o, p) for o, p in np.ndenumerate(joint) if p > cutoff])
 
+        # the leading axes index the alphabets of the original variables: restore their symbols
+        symbols = self._dist.alphabet
+        outcomes = [tuple(symbols[i][a] for i, a in enumerate(o[:self._n])) + tuple(o[self._n:]) for o in outcomes]
+
         # normalize, in case cutoffs removed a significant amount of pmf
         pmf = np.asarray(pmf)
         pmf /= pmf.sum()
